@@ -13,7 +13,9 @@ import lib
 ALLC = ["I1", "I2", "P", "I3", "P2", "Q1", "Q2", "K"]
 INF = 10000
 HOST_PATHS = ["host-file", "host-cmd", "host-write"]
-PATHS = HOST_PATHS + ["archive", "cleaner", "helper"]
+# "serialized": the group of multi-output / serialized-archive paths of the driver (archive-glob, host-glob,
+# serialized-file, serialized-glob)
+PATHS = HOST_PATHS + ["archive", "cleaner", "helper", "serialized"]
 
 HIST_INV = ["LookupIsUnionInv", "TableIsUnion", "LookupBudgetsInv"]
 CONTENT_INV = ["Subsequence", "KeptLinesMatch", "LastMatchKept", "DroppedOnlyWhenBudgetSpent",
@@ -48,7 +50,7 @@ def cfg_text(spec, c, invariants=(), props=(), constraint=None, view=None):
     return "\n".join(lines) + "\n"
 
 
-MPATHS = ["archive", "cleaner", "host", "helper"]
+MPATHS = ["archive", "cleaner", "host", "helper", "serialized", "serialized-multi"]
 PLAN = dict(
     quick=dict(
         # requirement vs table + cache (whole-cache invalidation): every interleaving to depth 5
@@ -329,7 +331,7 @@ def run(prop, tier):
     outs = lib.run_driver_parallel("drive_filters.py", payloads, hashseeds=list(range(lib.seed(), lib.seed() + 16)),
                                    timeout=2400, jobs=njobs)
     traces, concrete = [], {}
-    grep_runs = grep_checked = 0
+    grep_runs = grep_checked = hydrated = 0
     for o in outs:
         for t in o["traces"]:
             if t["kind"] == "content":
@@ -346,6 +348,7 @@ def run(prop, tier):
                 traces.append(t)
         grep_runs += o["stats"].get("grep_runs", 0)
         grep_checked += o["stats"].get("grep_checked", 0)
+        hydrated += o["stats"].get("hydrated", 0)
     if not outs[-1]["stats"].get("add_filter_patched"):
         raise lib.MachineryError("vacuity: the insights.tests helper process did not load insights.tests")
     with_filters = sum(1 for c in ccases if any(c["allow"]))
@@ -356,6 +359,10 @@ def run(prop, tier):
                        % (grep_runs, with_filters))
     if not grep_checked:
         raise lib.MachineryError("vacuity: the model's grep semantics was never cross-checked (R4)")
+    if hydrated < len(ccases):
+        # decided after the verdict, like the grep count
+        vacuous.append("vacuity: Hydration.hydrate gave back %d files of the multi-output spec for %d contents"
+                       % (hydrated, len(ccases)))
     nev = sum(len(t["events"]) for t in traces)
     ncontent = len(set(t["id"].rsplit("/", 1)[0] for t in traces if t["kind"] == "content"))
     print("timing: drivers %.1fs, %d traces, %d events; host contexts ran grep -F %d times; grep semantics "
@@ -443,7 +450,9 @@ def run(prop, tier):
         extra=dict(histories_emitted=emitted_h, histories_replayed=len(hcases), contents_emitted=emitted_c,
                    contents_replayed=len(ccases), host_grep_runs=grep_runs, grep_semantics_cross_checked=grep_checked,
                    contents_with_leading_dash_first=dash, selftest_corrupted_rejected=len(bad),
-                   paths=PATHS + ["host-cmd-write", "tests-inputdata", "tests-context-wrap"],
+                   paths=PATHS[:-1] + ["host-cmd-write", "tests-inputdata", "tests-context-wrap", "archive-glob",
+                                       "host-glob", "serialized-file", "serialized-glob"],
+                   files_hydrated_from_serialized_archives=hydrated,
                    stale_cache_model=dict(cache_rule="self", violated=st.violation, steps=cex_len["stale"],
                                           states=st.distinct),
                    direct_deps_cache_model=dict(cache_rule="direct", violated=res["direct"].violation,
